@@ -71,7 +71,7 @@ struct C03 : public Driver {
         if (dc.manyNames) { sc.on.insert("num-nocount"); sc.on.insert("num-any"); }
         if (dc.bigNum) { sc.on.insert("bigfmt"); sc.on.insert("valnum"); }
         if (g.chance(1, 3)) sc.on.insert("padsupp");
-        const bool gated = g.chance(1, 3); if (gated) { sc.on.insert("gate"); if (g.chance(1, 2)) sc.on.insert("num-gate"); if (g.chance(1, 2)) sc.on.insert("sort-gate"); }
+        const bool gated = g.chance(1, 3); if (gated) { sc.on.insert("gate"); if (g.fork("wp").chance(1, 2)) sc.on.insert("withparam"); if (g.chance(1, 2)) sc.on.insert("num-gate"); if (g.chance(1, 2)) sc.on.insert("sort-gate"); }
         sc.dfVariant = (int)g.below(3); sc.keyVariant = (int)g.below(3);
         { unsigned m = (unsigned)g.below(12); if (m == 0) { sc.method = ""; sc.rootName = "html"; } else if (m == 1) sc.method = "html"; else if (m == 2) sc.method = "text"; else if (m == 3) { sc.method = ""; } }   // output method: xml mostly; html, text, and the switch to html after the first element
         const bool noslash = g.chance(1, 12); if (noslash) { sc.sysIdStyle = "noslash"; sc.useInclude = true; }
